@@ -260,8 +260,14 @@ func VerifH_ws_stream() {
 	stream = append(stream, vfClientFrame(8, nil)...)
 	conn := &vfConn{in: stream}
 	w := &vfHijackRW{fakeRW: newFakeRW(), conn: conn}
+	// C07: a query parameter naming the path-bound field must not replace the path capture
+	query := ""
+	if vfBool() {
+		query = "f=evil"
+		vfCover("query-rival")
+	}
 	r := &http.Request{
-		Method: "GET", URL: &url.URL{Path: "/v1/rooms/x"}, ProtoMajor: 1, ProtoMinor: 1, Host: "h",
+		Method: "GET", URL: &url.URL{Path: "/v1/rooms/x", RawQuery: query}, ProtoMajor: 1, ProtoMinor: 1, Host: "h",
 		Header: http.Header{"Upgrade": []string{"websocket"}, "Connection": []string{"Upgrade"}, "Sec-Websocket-Version": []string{"13"}, "Sec-Websocket-Key": []string{"dGhlIHNhbXBsZSBub25jZQ=="}},
 	}
 	mux.ServeHTTP(w, r)
@@ -279,7 +285,7 @@ func VerifH_ws_stream() {
 	for i := 0; i < wantN && i < len(srv.got); i++ {
 		vfCheck(srv.got[i].str("g") == vals[i], "a WebSocket message reached the handler altered or out of order")
 		if i == 0 {
-			vfCheck(srv.got[i].str("f") == "rooms/x", "path parameter missing from the first WebSocket message")
+			vfCheck(srv.got[i].str("f") == "rooms/x", "the path-bound field of the first WebSocket message does not carry the text captured from the URL path")
 		} else {
 			vfCheck(srv.got[i].str("f") == "", "path parameter applied to a later WebSocket message")
 		}
